@@ -568,6 +568,33 @@ func (fv *funcVerifier) evalAppend(st *State, call *ast.CallExpr) smt.Term {
 }
 
 func (fv *funcVerifier) evalCopy(st *State, call *ast.CallExpr) smt.Term {
+	if se, ok := ast.Unparen(call.Args[0]).(*ast.SliceExpr); ok && fv.copyArr[se] != nil && !fv.boxed[fv.copyArr[se]] && !fv.volatile[fv.copyArr[se]] {
+		v := fv.copyArr[se]
+		at := v.Type().Underlying().(*types.Array)
+		es := fv.so.sortOf(at.Elem())
+		src := fv.evalExpr(st, call.Args[1])
+		var srcLen smt.Term
+		var elemAt func(j smt.Term) smt.Term
+		if isString(fv.typeOf(call.Args[1])) {
+			srcLen = smt.App(smt.Int, "str_len", src)
+			elemAt = func(j smt.Term) smt.Term { return smt.App(smt.Int, "str_at", src, j) }
+		} else {
+			key := fv.memKey(at.Elem())
+			fv.instFrames(key, slArr(src))
+			m := fv.heapGet(st, key)
+			srcLen = slLen(src)
+			elemAt = func(j smt.Term) smt.Term { return smt.Select(smt.Select(m, slArr(src)), smt.Add(slOff(src), j)) }
+		}
+		n := fv.c.Let("ncopy", smt.Ite(smt.Le(smt.IntLit(at.Len()), srcLen), smt.IntLit(at.Len()), srcLen))
+		na := fv.c.Fresh("copyarr", smt.Arr(smt.Int, es))
+		j := smt.Term{S: "j", Sort: smt.Int}
+		old := st.vars[v]
+		fv.assumeGlobal(smt.Forall([]smt.Term{j},
+			smt.Eq(smt.Select(na, j), smt.Ite(smt.And(smt.Ge(j, smt.IntLit(0)), smt.Lt(j, n)), elemAt(j), smt.Select(old, j))),
+			smt.Select(na, j)))
+		st.vars[v] = na
+		return n
+	}
 	dt := fv.typeOf(call.Args[0]).Underlying().(*types.Slice)
 	dst := fv.evalExpr(st, call.Args[0])
 	src := fv.evalExpr(st, call.Args[1])
